@@ -43,6 +43,8 @@ WRAP = "-Wl,--wrap=malloc,--wrap=calloc,--wrap=realloc,--wrap=reallocarray,--wra
 
 def build(variant="asan"):
     """Compile /repo/src/*.c directly (no CMake) with the harness. Keyed by content so that an edit of the tree rebuilds."""
+    if os.environ.get("VERIF_COV_EXE") and variant in ("asan", "plain"):      # bin/covaudit: the same streams on a gcov-instrumented library
+        return os.environ["VERIF_COV_EXE"]
     os.makedirs(BUILD, exist_ok=True)
     key = tree_hash([os.path.join(REPO, "src"), os.path.join(REPO, "include"), os.path.join(VERIF, "harness")])
     out = os.path.join(BUILD, "%s-%s" % (variant, key))
